@@ -232,7 +232,7 @@ CLAIMS = {
     note='Trusted: z3 4.x/5.x NIA/LRA verdicts (unknown is reported as inconclusive); '
          'float division treated as real division: Lemma F (QF_BVFP, z3 Float64: '
          'ceil(a / b) in binary64 equals the integer ceiling for all 1 <= b <= 2^k, 0 <= '
-         'a <= b * 2^k) is discharged for k = 6 (quick) / k = 12 (thorough), larger '
+         'a <= b * 2^k) is discharged for k = 6 (quick) / k = 11 (thorough; k = 12 did not finish in 1400 s), larger '
          'operands are argued, not solver-checked; '
          'statements the evaluator cannot interpret make their targets unknown and the '
          'run fails if a needed output is lost; PilotDescription.verify() preconditions '
